@@ -290,6 +290,8 @@ type world struct {
 	keys    map[uint32]*ecdsa.PrivateKey
 	chains  map[uint32]*ethereum.TbtcChain
 	byAddr  map[string]uint32
+	// operators whose public key has a coordinate with a leading zero byte
+	shortOps int
 }
 
 func newWorld(in *input) (*world, error) {
@@ -307,6 +309,9 @@ func newWorld(in *input) (*world, error) {
 			return nil, err
 		}
 		w.keys[id] = pk
+		if zeroBytes(pk.PublicKey.X) > 0 || zeroBytes(pk.PublicKey.Y) > 0 {
+			w.shortOps++
+		}
 		w.chains[id] = ethereum.VerifC40Chain(w.chainID, pk)
 		w.byAddr[hex.EncodeToString(ethcrypto.PubkeyToAddress(pk.PublicKey).Bytes())] = id
 	}
@@ -708,7 +713,9 @@ func runDkg(in *input, em *lib.Emitter, id string) {
 	// chain id, 04-less Marshal, misbehaved as given but sorted, int64(start) as a 256-bit word
 	var cliPre []byte
 	cliOK := false
-	if hashOK {
+	// (only for a key that fits: when the client returns a hash for a coordinate of more than 32
+	// bytes there is no guess, and the model, which has no preimage either, disagrees)
+	if hashOK && onCurveOK {
 		sm := append([]uint8{}, in.Misbehav...)
 		sort.Slice(sm, func(i, j int) bool { return sm[i] < sm[j] })
 		cliPre = ownEncode(oUint(w.chainID), oBytes(append(pub.X.FillBytes(make([]byte, 32)), pub.Y.FillBytes(make([]byte, 32))...)),
@@ -748,6 +755,11 @@ func runDkg(in *input, em *lib.Emitter, id string) {
 	multi := len(w.keys) < len(in.Members)
 	em.Tally("dkg-" + path + "-" + outcome)
 	em.Tally(fmt.Sprintf("dkg-size-%s", bucket(len(in.Members))))
+	keyClass := coordClass(pub.X, pub.Y)
+	em.Tally("dkg-groupkey-" + keyClass)
+	if w.shortOps > 0 {
+		em.Tally("dkg-with-short-coordinate-operator-keys")
+	}
 	if multi {
 		em.Tally("dkg-multi-seat-operators")
 	}
@@ -755,7 +767,7 @@ func runDkg(in *input, em *lib.Emitter, id string) {
 		ID: id, Coq: coq, Key: keyOf(in),
 		Nontrivial: len(in.Misbehav) >= 1 && len(in.Signers) >= 2,
 		Sig: wrongVSig(in, acceptedMut, map[string]interface{}{"kind": "dkg", "path": path, "outcome": outcome,
-			"genuine": genuine, "misbehaved": len(in.Misbehav) > 0}),
+			"genuine": genuine, "misbehaved": len(in.Misbehav) > 0, "key": keyClass}),
 		In: in, Out: human,
 	})
 }
@@ -954,12 +966,17 @@ func runClaim(in *input, em *lib.Emitter, id string) {
 		outTerm, lib.Bool(hashOK), bterm(pre), lib.Bool(preOK), bterm(walletPre), lib.Bool(walletOK),
 		lib.Bool(allAccepted), nlist32(in.Members), nlist32(recovered))
 	em.Tally("claim-" + outcome)
+	keyClass := coordClass(pub.X, pub.Y)
+	em.Tally("claim-walletkey-" + keyClass)
+	if w.shortOps > 0 {
+		em.Tally("claim-with-short-coordinate-operator-keys")
+	}
 	if in.Heartbeat {
 		em.Tally("claim-heartbeat-failed")
 	}
 	em.Case(lib.Case{
 		ID: id, Coq: coq, Key: keyOf(in), Nontrivial: len(in.RawInact) >= 2 && len(in.Signers) >= 2,
-		Sig: wrongVSig(in, acceptedMut, map[string]interface{}{"kind": "claim", "outcome": outcome, "heartbeat": in.Heartbeat}),
+		Sig: wrongVSig(in, acceptedMut, map[string]interface{}{"kind": "claim", "outcome": outcome, "heartbeat": in.Heartbeat, "key": keyClass}),
 		In:  in, Out: human,
 	})
 }
@@ -1040,6 +1057,9 @@ func runEth(in *input, em *lib.Emitter, id string) {
 		}
 	}
 	em.Tally("eth-signer")
+	if w.shortOps > 0 {
+		em.Tally("eth-signer-short-coordinate-key")
+	}
 	em.Case(lib.Case{ID: id, Coq: fmt.Sprintf("(CEth %s %s %s)", bterm(msg), bterm(pre), lib.Bool(ok)),
 		Key: keyOf(in), Nontrivial: true, Sig: map[string]interface{}{"kind": "eth"},
 		In: in, Out: map[string]interface{}{"recovers": ok}})
